@@ -165,7 +165,16 @@ func (r *Result) SortedClasses() []string {
 
 // Journal is an unbuffered per-worker file naming the case in flight.
 type Journal struct {
-	f *os.File
+	f    *os.File
+	mu   sync.Mutex
+	last string
+}
+
+// Last returns the most recent journal line.
+func (j *Journal) Last() string {
+	j.mu.Lock()
+	defer j.mu.Unlock()
+	return j.last
 }
 
 // OpenJournal opens (truncates) the journal file; path "" gives a no-op journal.
@@ -182,10 +191,14 @@ func OpenJournal(path string) *Journal {
 
 // Log appends one line (synchronously written to the OS).
 func (j *Journal) Log(format string, a ...interface{}) {
+	s := fmt.Sprintf(format, a...)
+	j.mu.Lock()
+	j.last = s
+	j.mu.Unlock()
 	if j.f == nil {
 		return
 	}
-	fmt.Fprintf(j.f, format+"\n", a...)
+	fmt.Fprintln(j.f, s)
 }
 
 // Close closes the journal.
